@@ -26,7 +26,10 @@ RULE = ("Hypothesis draws non-DAQmx source files biased to fragmentation (C01 ge
         "raw_timestamps=True) must show the model content of the source: same groups and channels, property names and "
         "values (raw timestamps as (seconds, fractions)), lengths, bit-identical raw values, data type whenever >=1 value; "
         "the copy passes the strict structural parse (and its index twin is faithful). Non-trivial: source with >=3 segments "
-        "and a channel split over >=2 of them, or an empty / untyped channel.")
+        "and a channel split over >=2 of them, or an empty / untyped channel."
+        ' A further job defragments sources with long channels (16 KiB - 768 KiB, lengths on and next to powers of '
+        'two); a copy written to a path with index_file=True is also read back by path (read and open) with the index '
+        'defragment wrote.')
 ASSUMPTIONS = [
     "float-with-unit channels are compared as their float type (the writer API has no with-unit types)",
     "order of groups/channels in the copy is not asserted (the statement does not mention it)",
